@@ -41,6 +41,14 @@ CLAIMED = {
    technique="bounded-exhaustive enumeration of read-primitive words x byte streams x segmentations, executed on the real ctxio.Conn under the controlled scheduler against a cursor (byte-stream prefix) model; end-to-end Upgrade on both sides with schedule exploration",
    text="Every word of length <=3 (thorough <=4) over {ReadBytes, Read(1), Read(2), Read(7), Read(4096), Read(8192)} is run against 13 streams (0-2 frames, frames of 4095/4096/4097 bytes, payloads incl. NUL bytes and one larger than the buffer) under every listed segmentation (unsplit, every single cut, pairs of cuts, byte-by-byte; boundary offsets for long streams). Each primitive must return exactly the next bytes (ReadBytes: through the next NUL; Read(n): 1..n bytes), EOF only at the end, never skipping or repeating a byte whatever an earlier primitive buffered. End to end: client Upgrade + raw reads with the payload coalesced with the reply frame, and a handler reading call.Conn after a request frame followed by payload in the same write, split at every offset.",
    note="Segment boundaries are exactly the listed cuts (vnet returns at most one segment per read); streams are an alphabet around the 4096-byte buffer, not all byte strings."),
+ "C04": dict(engine=A, design="§3 C04",
+   technique="bounded-exhaustive enumeration of method strings x registered-interface sets, each call executed on the real Service under the controlled scheduler and compared with an independent routing model and per-dispatcher invocation logs",
+   text="About 7,500 method strings (all dot-joined sequences of <=4 tokens over 9 tokens incl. the empty token, plus prefixes, extensions, case variants, doubled/leading/trailing dots and spaces around every registrable name and the built-in interface, a 6 KiB method, NUL and quote characters) are sent against each of the 64 sets of <=3 registered names out of 7 (incl. org.varlink, org.varlink.servicex, a non-ASCII name). For every call: exactly one reply; it is the reply of exactly one dispatcher invoked exactly once with the text after the last dot, or InterfaceNotFound{interface}, InvalidParameter{method}, MethodNotFound{method} with no dispatcher invoked; the connection stays usable (calls are batched on one connection). 21 frames that are not calls are never dispatched or answered and end the connection (null, {} and {method:null} are answered like a call without method).",
+   note="The routing model splits with strings.Split and rejoins; token alphabet, not all strings. Default schedule only (routing is sequential code)."),
+ "C12": dict(engine=A, design="§3 C12",
+   technique="bounded-exhaustive enumeration of error names x parameter documents through the real ReplyError -> wire -> Connection.Call path under the controlled scheduler, against an independent name classifier and raw-JSON equality",
+   text="All dot-joined error names of <=4 (thorough <=5) tokens over 7 tokens (incl. empty, the reserved namespace's parts and a non-ASCII token) plus near-misses of org.varlink.service, each with 5 parameter documents, are sent by a handler and received by the library client: sendable names arrive as *varlink.Error with exactly that name, raw-JSON-equal parameters (numbers compared as text) and exactly one frame on the wire; unsendable names are refused with nothing written (the handler's fallback reply is the only frame). The four typed helpers x 4 argument strings arrive as their typed errors with the exact string. A scripted raw server checks the client mapping alone.",
+   note="Names with an empty last part are counted as unspecified. Alphabets, not all strings / all JSON."),
 }
 
 NOT_YET = "check not built yet (work in progress; see DESIGN.md for the plan)"
